@@ -346,6 +346,8 @@ fn ros_arr_swarm(rng: &mut Rng) -> ArrSwarm {
     // vectors / Rc wrappers add nothing here; keep prefix and propagated models rare
     sw.weights[7] = 0;
     sw.weights[8] = 0;
+    // now and then a user-defined model (the trait's default brute-force `steps_iter`)
+    sw.allow_user = true;
     if sw.weights.iter().sum::<u64>() == 0 {
         sw.weights[1] = 1;
     }
